@@ -237,6 +237,11 @@ def nuts(n_iter,
     n_total = 0  # total number of proposals
 
     for ii in range(1, n_iter + 1):
+        if ii == n_adapt + 1:  # count only the proposals made after adaptation/warmup
+            n_diverged = 0
+            n_outside = 0
+            n_total = 0
+
         momentum0 = random_state.randn(*params0.shape)
         samples_prev = samples[ii - 1, :]
         log_joint0 = target(samples_prev) - 0.5 * np.inner(momentum0, momentum0)
@@ -289,9 +294,6 @@ def nuts(n_iter,
 
         elif ii == n_adapt + 1:  # adaptation/warmup finished
             stepsize = np.exp(log_avg_stepsize)  # final stepsize
-            n_diverged = 0
-            n_outside = 0
-            n_total = 0
             logger.info("NUTS: Adaptation/warmup finished. Sampling...")
             logger.debug("NUTS: Set final stepsize {}.".format(stepsize))
 
